@@ -20,6 +20,17 @@ Proof. unfold built. destruct (N.ltb_spec MAX_DEPTH (ast_height e)) as [L|L]; [e
 Lemma of_hb x a r : hb x -> x = Ok (a, r) -> ast_height a <= MAX_DEPTH.
 Proof. intros G E. subst x. exact G. Qed.
 
+Lemma postfixes_hb : forall f lhs ts a r, ast_height lhs <= MAX_DEPTH -> parse_postfixes tbl tm f lhs ts = Ok (a, r) -> ast_height a <= MAX_DEPTH.
+Proof.
+  induction f as [|f IH]; intros lhs ts a r Hl H; cbn [parse_postfixes] in H; [discriminate|].
+  destruct ts as [|t rest]; [inversion H; subst; exact Hl|].
+  destruct t; try (inversion H; subst; exact Hl).
+  destruct (is_postfix tbl s); [|inversion H; subst; exact Hl].
+  destruct (advance tm (TOp s :: rest)) as [ts2| | |]; cbn [bind] in H; try discriminate.
+  destruct (built (APostfix lhs s) ts2) as [[e ts3]| | |] eqn:B; cbn [bind] in H; try discriminate.
+  apply built_ok in B. destruct B as (-> & -> & B). eapply IH; eassumption.
+Qed.
+
 Definition all_hb (f : nat) : Prop :=
   (forall d ts a r, parse_expression tbl tm f d ts = Ok (a, r) -> ast_height a <= MAX_DEPTH) /\
   (forall d ts a r, parse_primary tbl tm f d ts = Ok (a, r) -> ast_height a <= MAX_DEPTH) /\
@@ -33,6 +44,7 @@ Ltac hstep I1 I2 I3 I7 I8 :=
   | H : Ok _ = Ok _ |- _ => inversion H; subst; clear H
   | H : built _ _ = Ok (_, _) |- _ => apply built_ok in H; destruct H as (? & ? & ?); subst
   | H : (if ?c then _ else _) = Ok _ |- _ => destruct c
+  | H : parse_postfixes _ _ _ _ _ = Ok (_, _) |- _ => apply postfixes_hb in H; [|assumption]
   | H : _ = Ok (_, _) |- _ =>
       first [ apply I1 in H | apply I2 in H | apply I3 in H | apply I7 in H; [|assumption] | apply I8 in H; [|assumption] ]
   | |- hb (built _ _) => apply hb_built
